@@ -8,6 +8,35 @@ from . import extract
 VERIF = "/verif"
 
 
+# the transformer contracts in xform.py were written from exactly these sources
+PINNED = {
+    "nom": ("7.1.3", "d273983c5a657a70a3e8f2a01329822f3b8c8172b73826411a55751e404a0a4a"),
+    "heapless": ("0.7.17", "cdc6457c0eb62c71aac4bc17216026d8410337c4126773b9c5daba343f17964f"),
+}
+
+
+def contracts_valid(repo):
+    """(ok, message): Cargo.lock of the analysed tree pins the dependency versions the contracts were
+    written for, and the .crate files in the cargo cache hash to the recorded checksums"""
+    import re, glob, hashlib
+    try:
+        lock = open(os.path.join(repo, "Cargo.lock")).read()
+    except OSError as e:
+        return False, "Cargo.lock unreadable: %s" % e
+    for name, (ver, sha) in PINNED.items():
+        m = re.search(r'name = "%s"\nversion = "([^"]+)"\n(?:source = "[^"]*"\n)?checksum = "([0-9a-f]+)"' % name, lock)
+        if not m:
+            return False, "%s not pinned in Cargo.lock" % name
+        if m.group(1) != ver or m.group(2) != sha:
+            return False, "%s %s (checksum %s...) is not the version the contracts were written for (%s)" % (name, m.group(1), m.group(2)[:12], ver)
+        files = glob.glob(os.path.expanduser("~/.cargo/registry/cache/*/%s-%s.crate" % (name, ver)))
+        if not files:
+            return False, "%s-%s.crate not in the cargo cache" % (name, ver)
+        if hashlib.sha256(open(files[0], "rb").read()).hexdigest() != sha:
+            return False, "%s-%s.crate in the cargo cache does not hash to the pinned checksum" % (name, ver)
+    return True, "nom 7.1.3 and heapless 0.7.17 pinned by Cargo.lock and verified against the cargo cache"
+
+
 class Ctx:
     def __init__(self, tier):
         self.tier = tier
